@@ -25,29 +25,35 @@ ASSUMPTIONS = [
     "iterative algorithm: judged by the clause the statement gives it (covariance frozen at the reported optimum; refit does not move)",
     "scipy with a limited parameter under-converges (known finding D30)",
 ]
-FAMILIES = ["exp-y", "exp-xy", "exp-relm", "exp-xy-relm", "pow-y", "peak-fixed", "sinus-y", "logistic-xy"]
-QUICK_FAMILIES = ["exp-y", "exp-xy", "exp-relm", "exp-xy-relm", "pow-y", "sinus-y"]
+FAMILIES = list(problems.FAMILY_TRUTH)
+QUICK_FAMILIES = ["expo", "powerlaw", "sinus"]
+UNCS = list(problems.UNC_CONFIGS)
 DELTAS = (0.01, 0.1, 0.5, 1.0)
 
 
-def variants(name):
-    ftype, model, truth, ops = problems.PROBLEMS[name]
-    w = problems.make(name, fit=False)
+def variants(model):
+    truth = problems.FAMILY_TRUTH[model]
+    w = problems.make_family(model, "y", fit=False)
     free = [p for p in w.par_names if p not in w.fixed]
     tr = dict(zip(w.par_names, truth))
     out = [("free", [])]
     for p in free:
         out.append(("fix:" + p, [("fix", p, round(tr[p] * 1.04, 6))]))
+    if len(free) >= 3:
+        out.append(("fix2:%s+%s" % (free[0], free[-1]), [("fix", free[0], round(tr[free[0]] * 0.97, 6)), ("fix", free[-1], round(tr[free[-1]] * 1.03, 6))]))
+    for p in (free[-1], free[0]):
+        lo, hi = sorted((0.5 * tr[p], 2.0 * tr[p]))
+        out.append(("lim-in:" + p, [("lim", p, round(lo, 6), round(hi, 6))]))
     p = free[-1]
-    lo, hi = sorted((0.5 * tr[p], 2.0 * tr[p]))
-    out.append(("lim-in:" + p, [("lim", p, round(lo, 6), round(hi, 6))]))
     lo, hi = sorted((0.3 * tr[p], 0.93 * tr[p]))
     out.append(("lim-bound:" + p, [("lim", p, round(lo, 6), round(hi, 6))]))
+    lo, hi = sorted((0.5 * tr[free[0]], 2.0 * tr[free[0]]))
+    out.append(("lim-in+fix:%s+%s" % (free[0], free[-1]), [("lim", free[0], round(lo, 6), round(hi, 6)), ("fix", free[-1], round(tr[free[-1]] * 1.02, 6))]))
     return out
 
 
-def dynamic(name):
-    return any(k in name for k in ("xy", "relm"))
+def dynamic(unc):
+    return unc in ("xy", "relm", "xy-relm")
 
 
 def jobs(tier, seed):
@@ -55,10 +61,13 @@ def jobs(tier, seed):
     specs = []
     fams = QUICK_FAMILIES if tier == "quick" else FAMILIES
     for vv in ([v] if tier == "quick" else [0, 1, 2]):
-        for name in fams:
-            for dea in ["nonlinear"] + (["iterative"] if dynamic(name) else []):
-                for vname, vops in variants(name):
-                    specs.append(("xy", name, dea, vname, vv, tier))
+        for model in fams:
+            for unc in UNCS:
+                for dea in ["nonlinear"] + (["iterative"] if dynamic(unc) else []):
+                    for vname, vops in variants(model):
+                        if tier == "quick" and unc in ("cov",) and vname != "free":
+                            continue
+                        specs.append(("xy", model + "/" + unc, dea, vname, vv, tier))
         for name in ("hist-nll", "hist-nllg", "hist-ga", "unbinned-nll"):
             for vname in ("free", "fix0", "lim-in"):
                 specs.append(("nll", name, "nonlinear", vname, vv, tier))
@@ -66,7 +75,7 @@ def jobs(tier, seed):
 
 
 def bound(tier, seed):
-    return "%d nonlinear xy families x {nonlinear, iterative where the covariance depends on the parameters} x {free, each parameter fixed, limited inside, limited on the bound} x {iminuit, scipy}; Poisson / Gaussian-NLL / Gauss-approximation histogram fits and unbinned fits x {free, fixed, limited}; valuation(s) %s" % (
+    return "%d nonlinear families x 5 uncertainty configurations (y, x+y, model-relative, x+y+model-relative, matrix+correlated) x {nonlinear, iterative where the covariance depends on the parameters} x {free, each parameter fixed, two fixed, limited inside (two positions), limited on the bound, limited+fixed} x {iminuit, scipy}; Poisson / Gaussian-NLL / Gauss-approximation histogram fits and unbinned fits x {free, fixed, limited}; valuation(s) %s" % (
         len(QUICK_FAMILIES if tier == "quick" else FAMILIES),
         (seed % 3) if tier == "quick" else "0,1,2",
     )
@@ -167,8 +176,9 @@ def run_config(spec):
     for backend in ("iminuit", "scipy"):
         try:
             if kind == "xy":
-                vops = dict(variants(name))[vname]
-                w = problems.make(name, v=v, minimizer=backend, dea=dea, extra_ops=vops)
+                model, unc = name.split("/")
+                vops = dict(variants(model))[vname]
+                w = problems.make_family(model, unc, v=v, minimizer=backend, dea=dea, extra_ops=vops)
             else:
                 w = make_nll(name, v, backend, vname)
         except Exception as e:  # noqa: BLE001
@@ -206,7 +216,7 @@ def run_job(spec):
     res.transitions += 2 * 6
     res.evaluations += 2 * 60
     res.state(spec[:5])
-    if dynamic(name) or vname != "free":
+    if (kind == "xy" and dynamic(name.split("/")[1])) or vname != "free":
         res.nontriv(spec[:5])
     res.observe((spec[:5], [[round(float(x), 5) for x in w.fit.parameter_values] for w in worlds.values()]))
     res.outcomes[(kind, dea, vname.split(":")[0], "ok" if not viol else "VIOLATION")] += 1
